@@ -39,7 +39,9 @@ def check_retry(prop, tier, seed):
         plans = [("memkv", "faults on any commit incl. the repair write, compaction request, watcher from the first revision", wc, n, 16),
                  ("memkv", "two requests per writer, 3 faults", dict(wc, OpsPer=2, FaultBudget=3, ExpSet={0, 4, 5}, InitStates={"none", "live"}), n // 2, 16),
                  ("tikv", "faults on TiKV mock", dict(wc, ConflictCarriesValue=False), n // 6, 8),
-                 ("badger", "faults on Badger", wc, n // 6, 4)]
+                 ("badger", "faults on Badger", wc, n // 6, 4),
+                 # the engine under the repository's storage metrics wrapper fails: the outcome travels through the wrapper
+                 ("metrics", "faults of the engine under the storage metrics wrapper", wc, n // 6, 4)]
         alltraces = []
         okops = 0
         for engine, title, consts, num, shards in plans:
